@@ -163,10 +163,12 @@ def replay_prim(v, kind, eng, env, label, verbose=False):
 
 # ------------------------------------------------------------------------------- network level
 def work_net(item):
-    tj, style, seed, timeout_ms = item
+    tj, style, seed, timeout_ms = item[:4]
+    hist = item[4] if len(item) > 4 else "fresh"
+    builder = netcheck.history_builders()[hist]
     topo = T_.Topo.from_json(tj)
     rng = random.Random(seed)
-    acc = netcheck.Acc(topo.name)
+    acc = netcheck.Acc(f"{topo.name}[{hist}]")
     D = ref_metanet.admissible_domain(topo)
     for node, (o, kind) in topo.origins.items():
         (l,) = topo.out_links(node)
@@ -174,9 +176,9 @@ def work_net(item):
     prover = LcapProver(timeout_ms=timeout_ms, seed=seed)
     numeric = netcheck.casadi_numeric_for(topo)
     try:
-        encs = netcheck.numpy_encodings(topo, style, None, D)
+        encs = netcheck.numpy_encodings(topo, style, None, D, builder=builder)
         for st in ("SX", "MX"):
-            e = netcheck.casadi_encoding(topo, st, numeric, more_out=True)
+            e = netcheck.casadi_encoding(topo, st, numeric, more_out=True, builder=builder)
             e.extra["numeric"] = numeric
             encs.append(e)
     except (symx.UnsupportedOp, symx.Inconclusive) as e:
@@ -274,6 +276,10 @@ def main():
         topos += [t for t in families.E(3, 4) + families.random_topos(args.seed, 30) if any(k in ("main", "ramp_in", "ramp_out", "simp_lim") for _, k in t.origins.values())]
     for k, t in enumerate(topos):
         items.append(("net", t.to_json(), ("array", "scalar")[k % 2], args.seed + k, timeout))
+        if t.name.startswith("k"):
+            hs = ["decoy-links-replaced", "reads-interleaved", "decoy-attachments-replaced"]
+            for h in (hs if args.thorough else [hs[k % 3]]):
+                items.append(("net", t.to_json(), ("array", "scalar")[(k + 1) % 2], args.seed + k, timeout, h))
     if args.only:
         items = [it for it in items if args.only in str(it[1])]
     results = harness.pmap(_work, items, args.serial)
